@@ -107,6 +107,7 @@ struct Res {
   int defect = -1; double rtr = 0;
   std::vector<double> x, r;
   std::vector<double> Q, H, Hs;   // n*n, m*m (orig system), m*m (solver, homogenised)
+  std::vector<double> Bx;         // m*n: q_bx of the solver object (homogenised system); empty where not implemented (envelope)
   std::vector<int> lindep;
   bool haveQ = false;
 };
@@ -139,6 +140,7 @@ static Res run(const Prob& p, const std::vector<double>& b, const std::vector<in
       for (int i = 1; i <= p.n; i++) for (int j = 1; j <= p.n; j++) R.Q[(i - 1) * p.n + j - 1] = adj.q_xx(i, j);
       for (int i = 1; i <= p.m; i++) for (int j = 1; j <= p.m; j++) R.H[(i - 1) * p.m + j - 1] = adj.q_bb(i, j);
       for (int i = 1; i <= p.m; i++) for (int j = 1; j <= p.m; j++) R.Hs[(i - 1) * p.m + j - 1] = adj.least_squares->q_bb(i, j);
+      if (alg != 0) { R.Bx.resize(p.m * p.n); for (int i = 1; i <= p.m; i++) for (int j = 1; j <= p.n; j++) R.Bx[(i - 1) * p.n + j - 1] = adj.least_squares->q_bx(i, j); }
       R.haveQ = true;
     }
   } catch (const GNU_gama::Exception::matvec& e) {
@@ -294,6 +296,14 @@ static void check_problem(Prob& p, const std::vector<std::vector<double>>& bs, c
             if (e > t3) V(std::string("C03|projector-not-idempotent|") + ALGN[a] + "|" + sc, cs, "max = " + str((double)e));
             if (dmin < -t3 || dmax > 1 + t3) V(std::string("C03|projector-diagonal-range|") + ALGN[a] + "|" + sc, cs, "diag in [" + str((double)dmin) + "," + str((double)dmax) + "]");
             if (fabsl(trc - (m - n + p.nullity)) > t3 * m) V(std::string("C03|redundancy-sum|") + ALGN[a] + "|" + sc, cs, "sum(1-h_ii) = " + str((double)trc) + " dof " + std::to_string(m - n + p.nullity));
+            // q_bx = Ah Q (Ah = homogenised design matrix, Ah'Ah = N): Bx'Bx = Q N Q and Hs Bx = Bx need no Ah
+            if (!R4[a].Bx.empty()) {
+              LMat Bx(m, n); for (int i = 0; i < m; i++) for (int j = 0; j < n; j++) Bx(i, j) = R4[a].Bx[i * n + j];
+              LMat BB = mul(tr(Bx), Bx); LMat QNQ2 = mul(Q, mul(p.N, Q)); LMat HB = mul(Hs, Bx);
+              e = 0; for (int i = 0; i < n; i++) for (int j = 0; j < n; j++) e = std::max(e, fabsl(BB(i, j) - QNQ2(i, j)));
+              LD e2 = 0; for (int i = 0; i < m; i++) for (int j = 0; j < n; j++) e2 = std::max(e2, fabsl(HB(i, j) - Bx(i, j)));
+              if (e > t3 * 10 || e2 > t3 * 10) V(std::string("C03|q_bx!=AQ|") + ALGN[a] + "|" + sc, cs, "max |Bx'Bx - QNQ| = " + str((double)e) + ", max |Hs Bx - Bx| = " + str((double)e2));
+            }
             // trace(P H) == trace(Hs)
             LMat PH = mul(p.P, H); LD t1 = 0, t2 = 0; for (int i = 0; i < m; i++) { t1 += PH(i, i); t2 += Hs(i, i); }
             if (fabsl(t1 - t2) > t3 * m) V(std::string("C03|qbb-orig-vs-homogenised|") + ALGN[a] + "|" + sc, cs, "tr(PH) " + str((double)t1) + " tr(Hs) " + str((double)t2));
